@@ -13,6 +13,7 @@ func init() {
 	vhRegister("VH_C04_Exit", func(p []int) { VH_C04_Exit(p[0], p[1]) })
 	vhRegister("VH_C03_Resume", func(p []int) { VH_C03_Resume(p[0]) })
 	vhRegister("VH_C17_Gate", func(p []int) { VH_C17_Gate(p[0]) })
+	vhRegister("VH_C17_Real", func(p []int) { VH_C17_Real(p[0], p[1]) })
 	vhRegister("VH_C15_Cache", func(p []int) { VH_C15_Cache(p[0]) })
 }
 
@@ -67,7 +68,12 @@ func VH_C04_Exit(U, fault int) {
 	m := &vMapper{ncols: map[string]int{}}
 	ctx := newVCtx()
 	n := len(h.evs)
-	at := 2 + vhChoose(n-1) // fault position among the events after the FDE (n = at the very end)
+	var at int
+	if fault == ftInvalid {
+		at = vhChoose(n + 1) // a malformed packet can also be the very first one, or sit between the fake ROTATE and the FDE
+	} else {
+		at = 2 + vhChoose(n-1) // fault position among the events after the FDE (n = at the very end)
+	}
 	rejectAt := -1
 	cancelAt := -1
 	switch fault {
@@ -171,6 +177,45 @@ func VH_C04_Exit(U, fault int) {
 
 // VH_C17_Gate: an invalid event injected at every index of a history.
 func VH_C17_Gate(U int) { VH_C04_Exit(U, ftInvalid) }
+
+// VH_C17_Real: the REAL event type on an arbitrary buffer of n bytes that fails the validity test
+// (shorter than a header, or length field != buffer length), fed to the real parseEvents as packet
+// number `where` of a dump (0: first, 1: after the fake ROTATE, 2: after the format description):
+// the stream ends with an error, without a panic, without a delivery, position unchanged.
+func VH_C17_Real(n, where int) {
+	buf := vhBytes(n)
+	if n >= 19 {
+		l := uint32(buf[9]) | uint32(buf[10])<<8 | uint32(buf[11])<<16 | uint32(buf[12])<<24
+		vhAssume(l != uint32(n))
+	}
+	var evs []replication.BinlogEvent
+	if where >= 1 {
+		evs = append(evs, replication.NewMysql56BinlogEvent(vwRotate("bin.000001", 4)))
+	}
+	if where >= 2 {
+		evs = append(evs, replication.NewMysql56BinlogEvent(vwFDE()))
+	}
+	evs = append(evs, replication.NewMysql56BinlogEvent(buf))
+	evs = append(evs, replication.NewMysql56BinlogEvent(vwQuery("create table t (a int)", 300)))
+	ch := make(chan replication.BinlogEvent, len(evs))
+	for _, e := range evs {
+		ch <- e
+	}
+	close(ch)
+	s := &Streamer{tableMapper: &vMapper{}}
+	start := Position{Filename: "bin.000001", Offset: 4}
+	s.SetBinlogPosition(start)
+	calls := 0
+	s.sendTransaction = func(t *Transaction) error {
+		calls++
+		return nil
+	}
+	pos, err := s.parseEvents(context.Background(), ch)
+	vhAssert(err != nil, "a packet that fails the validity test ends the stream with an error")
+	vhAssert(calls == 0, "nothing is delivered at or after a malformed packet")
+	vhAssert(pos.Filename == start.Filename && pos.Offset == start.Offset, "resume position still at the last accepted commit boundary")
+	vhCover("real-gate")
+}
 
 // VH_C03_Resume: run the parser on a history, pick a delivered transaction k and run
 // a fresh streamer on what a master serves from its end label.
